@@ -24,8 +24,11 @@ LEVEL_TEXT = ('static analysis: (D1) center_all interpreted on a symbolic table 
               'verdict and the metadata is not extended; the `sex` report prints Male iff that verdict; and the decision skeleton of '
               "compare_sex_chromosomes on noise-free levels (its median-difference path): X / Y at the levels expected for the sample's sex under"
               ' either reference sex, with or without chrY, is classified as that sex; (D3c) verify_sample_sex returns the stated sex whenever '
-              'one is stated (x / y / f / m / female / male), else the inferred one; (D4) the sex / PAR flags reach same-role parameters. Does '
-              "not decide the Mood's-median-test inference under noise (statistical).")
+              'one is stated (x / y / f / m / female / male), else the inferred one; (D4) the sex / PAR flags reach same-role parameters. (CLI) '
+              'the `call --center / sex` command line(s), through a model of argparse built from the declarations in commands.py and the real '
+              '_cmd_ body interpreted with readers, library step and writers stubbed: the estimator (or `median` when --center has no value), '
+              '--drop-low-coverage and the PAR genome reach center_all, --center-at shifts instead; every file, -y and the PAR genome reach '
+              "do_sex. Does not decide the Mood's-median-test inference under noise (statistical).")
 TECHNIQUE = "abstract interpretation with an opaque estimator (uniform-shift identity, argument provenance); registry agreement; decision tables; role-flow"
 
 CNA = "cnvlib.cnary.CopyNumArray"
@@ -94,7 +97,33 @@ def d1(chk, prog):
         tb.cell(uniform and ok_calls and ok_shift, dict(by_chrom=by_chrom, skip_low=skip_low, par_genome=par, naming=style or "bare", rows_unsorted=unsorted, uniform_shift=uniform,
                                                          shift=repr(shifts[0]), estimator_calls=[[repr(x) for x in c] for c in calls], estimated_bins=used))
     tb.done("centring is not one constant shift by the estimator of the autosomal bins (per chromosome first)")
-    # nothing to centre on: no autosome-named chromosome -> all bins are used (documented fallback); empty -> no-op
+    # nothing to centre on: no autosome-named chromosome -> all bins are used (documented fallback), with or without a PAR genome
+    tbn = Table(chk, "uniform-shift", "center_all on tables without any autosome-like name (chrX incl. PAR-X bins, chrY, chrM, a scaffold): one constant, estimated from all bins (PAR genome given or not)", fi.loc(), fi.qn + "::no autosomes")
+    for by_chrom, par, style in itertools.product([True, False], [None, "grch38"], ["", "chr"]):
+        W.reset()
+        pref = "chr" if style else ""
+        spec = [("x", pref + "X", 50_000_000), ("parx", pref + "X", 100_000), ("x2", pref + "X", 60_000_000), ("y", pref + "Y", 20_000_000), ("mito", pref + "M" if style else "MT", 1000), ("scaffold", "scaffold_12", 5000)]
+        rows = [dict(chromosome=c, start=st, end=st + 1000, gene="g", log2=Term.sym(f"v_{nm}", -10, 10), depth=Term.sym(f"d_{nm}", 1, INF)) for nm, c, st in spec]
+        g = make_ga("CopyNumArray", rows, {"sample_id": "S"}, index="any", exact=True)
+        before = list(g.data.cols["log2"].v)
+        calls = []
+
+        def est(v, calls=calls):
+            calls.append(list(v.v) if isinstance(v, Vec) else list(v))
+            return Term.sym(f"EST{len(calls)}")
+        it = Interp(prog)
+        out = tbn.guard(lambda: ("v", it.run_method(g, "center_all", [est, by_chrom, False, False, par])), f"by_chrom={by_chrom} par={par} naming={style or 'bare'}")
+        if out is None:
+            continue
+        after = g.data.cols["log2"].v
+        shifts = [t_sub(T(a), T(b)) for a, b in zip(after, before)]
+        uniform = all(same(s_, shifts[0]) for s_ in shifts)
+        seen = calls[:-1] if by_chrom else calls
+        flat = [x for c in seen for x in c]
+        all_bins = len(flat) == len(before) and all(any(same(x, b) for x in flat) for b in before)
+        ok = uniform and bool(calls) and all_bins and same(shifts[0], t_neg(Term.sym(f"EST{len(calls)}")))
+        tbn.cell(ok, dict(by_chrom=by_chrom, par_genome=par, naming=style or "bare", uniform_shift=uniform, bins_estimated_from=len(flat), of=len(before), estimator_calls=[[repr(x) for x in c] for c in calls]))
+    tbn.done("on a table without autosome-like names the centre is not estimated from all bins (e.g. from the PAR-X bins alone when a PAR genome is given)")
     W.reset()
     it = Interp(prog)
     g = GA("CopyNumArray", DF({c: Vec([], aligned=True) for c in ("chromosome", "start", "end", "gene", "log2")}, 0), 0, {"sample_id": "S"})
@@ -295,6 +324,10 @@ def run(chk):
     chk.assume("the estimator passed to center_all is a function of the values it is given (treated as an opaque symbol per call)")
     d1(chk, prog)
     d2(chk, prog)
+    from . import C19
+    # the estimators center_all binds: a location estimate of constant data / of a single value is that value (a chromosome covered by one bin votes its own level), C19-D5 rule
+    from .. import estyping
+    estyping.check_constant(chk, prog, {k: v for k, v in C19.LOCATION.items() if k in ("biweight_location", "modal_location")}, {}, floor=2)
     d3(chk, prog)
     d3c_stated_sex(chk, prog)
     C05.d2(chk, prog)            # expect_flat_log2 table (shared with C05-D2)
